@@ -16,7 +16,9 @@ RULE = (
 	'width, wrong case class, one-character name, unknown keyword / attribute / transform / condition operator, missing operand / bracket / `=` / '
 	'final line end, member outside its declaration, struct without members, wrong attribute arity) x every applicable site (quick tier: up to 4 '
 	'sites per document and operator, chosen from VERIF_SEED). A case is distinct by the corrupted text; non-trivial = the real parser ran on it. '
-	'Command line: the corrupted text as a file reached through an import of a valid root.')
+	'Command line: the corrupted text as a file reached through imports of a valid root, in six layouts: nested directory; a name that differs '
+	'only in letter case from an earlier well-formed import, from the root, in a directory component; a name equal to an earlier one only under '
+	'case folding / unicode normalisation.')
 TRUSTED_BASE = [
 	'Lean 4.33 kernel; axioms of the property theorems: subset of {propext, Classical.choice, Quot.sound}',
 	'hand-written model SymbolVerif/Model/Cats/{Lexer,Parser}.lean and the operator definitions Model/Cats/Corrupt.lean, tied to catbuffer.lark / '
@@ -162,31 +164,69 @@ def command_line(ctx, corruptor, how_many, subprocesses):
 		for bucket in buckets:
 			if bucket:
 				pool.append(bucket.pop())
+	distinct_names = c17.probe_file_system(os.path.join(ctx.tmpdir(), 'fs-probe'))
+	if not distinct_names:
+		ctx.notes.append('the scratch file system folds letter case: the colliding-name layouts of the command-line sample are skipped')
+	layouts = list(CLI_LAYOUTS) if distinct_names else ['nested']
 	for number, case in enumerate(pool[:how_many]):
-		directory = os.path.join(ctx.tmpdir(), f'cli{number}')
-		os.makedirs(os.path.join(directory, 'inc', 'sub'), exist_ok=True)
-		with open(os.path.join(directory, 'inc', 'sub', 'child.cats'), 'wt', encoding='utf8', newline='') as outfile:
-			outfile.write(case['corrupted'])
-		with open(os.path.join(directory, 'inc', 'middle.cats'), 'wt', encoding='utf8', newline='') as outfile:
-			outfile.write('import "sub/child.cats"\nusing MiddleType = uint16\n')
-		with open(os.path.join(directory, 'inc', 'root.cats'), 'wt', encoding='utf8', newline='') as outfile:
-			outfile.write('using RootFirst = uint8\nimport "middle.cats"\nusing RootType = uint8\n')
-		output = os.path.join(directory, 'out.yaml')
-		argv = ['--schema', os.path.join(directory, 'inc', 'root.cats'), '--include', os.path.join(directory, 'inc'), '--output', output, '--quiet']
-		if number < subprocesses:
-			status, _, stderr = impl.subprocess_main(directory, argv)
-			mode = 'subprocess'
-			detail = stderr[-200:]
-		else:
-			status, crash, _ = impl.main(directory, argv)
-			mode = 'in-process'
-			detail = crash
-		ctx.case(('cli', case['corrupted']), {'mode': mode, 'status': status, 'operator': case['operator'], 'detail': detail})
-		ctx.count(f'cli:{mode}:exit{status}')
-		if 0 == status or os.path.exists(output):
-			ctx.fail('property', (
-				f'command line: a corrupted file reached through imports gave exit status {status}, output file written: {os.path.exists(output)} '
-				f'(operator {case["operator"]})'), dict(case, mode=mode))
+		cli_case(ctx, impl, case, number, layouts[number % len(layouts)], number < subprocesses)
+
+
+# where the corrupted text stands among the files of the run: (files {relative path: text, CORRUPTED marks the corrupted one}, root)
+CORRUPTED = object()
+CLI_LAYOUTS = {
+	# reached through two imports, in a sub-directory
+	'nested': ({
+		'sub/child.cats': CORRUPTED, 'middle.cats': 'import "sub/child.cats"\nusing MiddleType = uint16\n',
+		'root.cats': 'using RootFirst = uint8\nimport "middle.cats"\nusing RootType = uint8\n'}, 'root.cats'),
+	# its name differs only in letter case from a well-formed file imported before it
+	'case-after-wellformed': ({
+		'types.cats': 'using TypesType = uint16\n', 'Types.cats': CORRUPTED,
+		'root.cats': 'import "types.cats"\nusing RootFirst = uint8\nimport "Types.cats"\nusing RootType = uint8\n'}, 'root.cats'),
+	# ... from the root file itself
+	'case-of-root': ({'ALL.cats': CORRUPTED, 'all.cats': 'using RootFirst = uint8\nimport "ALL.cats"\nusing RootType = uint8\n'}, 'all.cats'),
+	# ... in a directory name, met deeper in the import graph, the import spelled with `./`
+	'case-of-directory': ({
+		'sub/child.cats': 'using ChildType = uint16\n', 'SUB/child.cats': CORRUPTED,
+		'middle.cats': 'import "./SUB/child.cats"\nusing MiddleType = uint16\n',
+		'root.cats': 'import "sub/child.cats"\nimport "middle.cats"\nusing RootType = uint8\n'}, 'root.cats'),
+	# its name equals the name of a well-formed file under case folding / unicode normalisation only
+	'casefold-unicode': ({
+		'stra\u00dfe.cats': 'using StreetType = uint16\n', 'strasse.cats': CORRUPTED,
+		'caf\u00e9.cats': 'using CoffeeType = uint16\n',
+		'root.cats': 'import "stra\u00dfe.cats"\nimport "caf\u00e9.cats"\nimport "zz/../strasse.cats"\nusing RootType = uint8\n'}, 'root.cats'),
+	'unicode-normal-form': ({
+		'caf\u00e9.cats': 'using CoffeeType = uint16\n', 'cafe\u0301.cats': CORRUPTED,
+		'root.cats': 'import "caf\u00e9.cats"\nimport "cafe\u0301.cats"\nusing RootType = uint8\n'}, 'root.cats'),
+}
+
+
+def cli_case(ctx, impl, case, number, layout, as_subprocess):
+	directory = os.path.join(ctx.tmpdir(), f'cli{number}')
+	files, root = CLI_LAYOUTS[layout]
+	os.makedirs(os.path.join(directory, 'inc', 'zz'), exist_ok=True)
+	for relative, text in files.items():
+		target = os.path.join(directory, 'inc', relative)
+		os.makedirs(os.path.dirname(target), exist_ok=True)
+		with open(target, 'wt', encoding='utf8', newline='') as outfile:
+			outfile.write(case['corrupted'] if text is CORRUPTED else text)
+	output = os.path.join(directory, 'out.yaml')
+	argv = ['--schema', os.path.join(directory, 'inc', root), '--include', os.path.join(directory, 'inc'), '--output', output, '--quiet']
+	if as_subprocess:
+		status, _, stderr = impl.subprocess_main(directory, argv)
+		mode = 'subprocess'
+		detail = stderr[-200:]
+	else:
+		status, crash, _ = impl.main(directory, argv)
+		mode = 'in-process'
+		detail = crash
+	ctx.case(('cli', layout, case['corrupted']), {'mode': mode, 'layout': layout, 'status': status, 'operator': case['operator'], 'detail': detail})
+	ctx.count(f'cli:{mode}:exit{status}')
+	ctx.count(f'cli-layout:{layout}')
+	if 0 == status or os.path.exists(output):
+		ctx.fail('property', (
+			f'command line: a corrupted file reached through imports (layout {layout}) gave exit status {status}, output file written: '
+			f'{os.path.exists(output)} (operator {case["operator"]})'), dict(case, mode=mode, layout=layout))
 
 
 def documents(ctx):
@@ -228,6 +268,10 @@ def replay(ctx, payload):
 	if corrupted is None:
 		run(ctx)
 		return
+	if recorded.get('layout'):
+		cli_case(ctx, c17.Implementation(ctx), recorded, 0, recorded['layout'], 'subprocess' == recorded.get('mode'))
+		for failure in ctx.failures:
+			print(f'  reproduced: {failure.what[:300]}')
 	verdict = reject_verdict(corrupted)
 	print(f'  implementation on the corrupted document: {verdict}')
 	if 'accepted' == verdict[0]:
